@@ -9,17 +9,60 @@ import readmodel as rm
 import writemodel as wm
 
 PROP = "C12"
-MODEL_TARGETS = ["Corr/WriteShow.vo"]
+MODEL_TARGETS = ["Corr/WriteShow.vo", "Proofs/FileRoundTripCheck.vo"]
 THEOREMS = ["C12_table_checks", "C12_order_tables_agree", "C12_order_case_insensitive", "C12_upper_facts", "C12_order_symmetric", "C12_reader_order_is_build_item", "C12_write_factors", "C12_header_independent_of_data_options", "C12_header_text_independent", "C12_state_independent_of_presentation", "C12_written_lines", "C12_version_swap_meaning", "C12_swap_on_disk", "C12_same_content_options_unfold", "C12_same_formats_unfold", "C12_wrap_rel_unfold", "C12_read_wrap_rel_unfold", "C12_same_but_version_unfold", "C12_file_presentation_independent", "C12_file_wrap_independent", "C12_file_options_independent", "C12_written_state_but_version"]
 ASSUMPTIONS = [
     "two numeric formats of equal precision print the same digits (oracle); only formats of equal precision are paired: per column the two "
     "configurations use the same conversion and precision (%.3f with %9.3f / %-9.3f / %+.3f / %09.3f, fmt with an equal column_fmt entry)",
-    "the reader side of the equality is proved for the whole file on the domain file_hypsb of the file round trip (C12_file_*); outside that domain it rests on the correspondence",
+    "the reader side of the equality is proved for the whole file on the domain file_hypsb of the file round trip (C12_file_*) for pairs "
+    "that use the same format string per column; the domain is evaluated by the model on every pair (histogram) and lasio must agree "
+    "there; outside that domain, and for equal precision spelled differently, it rests on the oracle and the correspondence",
     "spacers made of blanks/tabs are the domain of the writer model and of file_hypsb; configurations with another spacer (',', ';', '') go "
     "through the implementation-side oracle only (known finding nonblank-spacer)",
     "an input on which write() raises with BOTH configurations has no outputs to compare; the bases are built/filtered so that this never "
     "happens: if it does the run reports that the correspondence could not be evaluated",
 ]
+
+# the domain of the whole-file theorems (C12_file_presentation_independent / _wrap_ / _options_independent) evaluated by the model on a
+# case R<ropts> W<wopts> ...: "D" when file_hypsb holds for the written form of the object read (and data are not ignored)
+RUN_DOMAIN = """
+Require Import Regex NumLit Num HeaderLine Tables SectionParse Sections DataRead Read TextWrap Writer ReadShow WriteShow WriteOptionsProofs WriteDataTextProofs FileRoundTripCheck.
+Open Scope list_scope.
+Open Scope N_scope.
+Definition run (i : list N) : list N :=
+  match fields i with
+  | ops :: text :: rest =>
+      let (t, ft) := split_at_mark rest [] in
+      match split_char OPS ops with
+      | (82 :: rcode) :: (87 :: wcode) :: _ =>
+          let (ro, _) := opt_of rcode in
+          let o := wopts_of wcode in
+          let fz k := match tab_hex t k with Some h => hex_is_zero h | None => false end in
+          let hx k := match tab_hex t k with Some h => h | None => [63] end in
+          let fmtv := ftab_get ft in
+          let fmt_diff := fun f b a => ftab_get ft f (diff_key (hx b) (hx a)) in
+          let fmt_pi := fun f => ftab_get ft f PI_KEY in
+          let fstr := tab_str t in
+          let numeq := tab_numeq t in
+          let fhex := tab_hex t in
+          match read fhex fstr numeq ro text with
+          | ROk l0 =>
+              match write_sections fmtv fmt_diff fstr fz numeq (wo_version o) (wo_wrap o) (col_fmt o 0%nat)
+                      (mkmlas l0 (index_initial_of l0)) with
+              | Some hs =>
+                  match las_null_text fstr (hs_las hs) with
+                  | Some nt => if file_hypsb fmtv fmt_pi fstr fhex ro o hs nt && negb (o_ignore_data ro) then [68] else [111]
+                  | None => [111]
+                  end
+              | None => [111]
+              end
+          | RErr _ => [111]
+          end
+      | _ => [111]
+      end
+  | _ => [111]
+  end.
+"""
 
 # A4: spacers that are not a non-empty run of blanks/tabs.  lasio writes them verbatim between the fields and declares no DLM: the
 # file reads back with other content (known finding nonblank-spacer); every oracle message of this class starts with the tag.
@@ -278,6 +321,7 @@ def run(ctx):
     n_corpus = sum(1 for n, _ in bases if n.startswith("corpus:"))
     per = 5 if ctx.thorough else 1
     cases, meta, kinds = [], [], set()
+    pairs = []            # (index of the first case of the pair, same format strings per column?, oracle violated?, name, payload)
     hist = {"version_differs": 0, "wrap_differs": 0, "not_accepted": 0, "preserve": 0, "format_strings_differ": 0, "column_fmt": 0,
             "nonblank_spacer": 0, "reread_options_differ": 0, "wide": 0, "wide_12_vs_20_nowrap": 0, "overflow": 0, "pairs": 0}
     not_accepted = []
@@ -298,6 +342,11 @@ def run(ctx):
                 res.oracle_violations.append({"payload": {"text": text, "c1": c1, "c2": c2, "rkw": rkw, "rkw2": rkw2},
                                               "what": "%s: %s" % (name, bad)})
             nonblank = has_nonblank(c1, c2)
+            if not nonblank and rkw2 == rkw:
+                n = ncurves_of(text, rkw)
+                colf = lambda c, j: (c.get("column_fmt") or {}).get(j, c["fmt"])
+                pairs.append((len(cases), all(colf(c1, j) == colf(c2, j) for j in range(n)), bool(bad), name,
+                              {"text": text, "c1": c1, "c2": c2, "rkw": rkw}))
             for cfg in (c1, c2):
                 if not is_blank_spacer(cfg["spacer"]):
                     continue              # outside the writer model (ASSUMPTIONS): implementation-side oracle only
@@ -321,6 +370,23 @@ def run(ctx):
         res.corr_error = err
         for i in mism:
             res.mismatches.append({"base": meta[i][0], "ops": repr(meta[i][2]), "text": meta[i][1]})
+        # tie of the whole-file theorems to the code: where the model finds BOTH written forms of a pair in the domain file_hypsb and
+        # the two configurations use the same format string per column (same_formats), the theorems say the two re-read contents are
+        # equal apart from ~Version: lasio must agree
+        dom_idx = sorted({k for p in pairs for k in (p[0], p[0] + 1)})
+        out_dom, err2 = lib.run_coq_cases("c12dom", [], RUN_DOMAIN, [(cases[k][0], "D") for k in dom_idx], shard=8)
+        if err2:
+            res.corr_error = ((res.corr_error + "; ") if res.corr_error else "") + "domain: " + err2
+        else:
+            outside = {dom_idx[j] for j in out_dom}
+            in_dom = [p for p in pairs if p[0] not in outside and (p[0] + 1) not in outside]
+            hist["pairs_both_in_file_hypsb"] = len(in_dom)
+            hist["pairs_in_theorem_domain"] = sum(1 for p in in_dom if p[1])
+            hist["pairs_in_file_hypsb_formats_spelled_differently"] = sum(1 for p in in_dom if not p[1])
+            for p in in_dom:
+                if p[1] and p[2]:
+                    res.mismatches.append({"base": p[3], "payload": p[4],
+                                           "what": "in the domain of C12_file_options_independent but lasio's two re-read contents differ"})
     else:
         res.corr_error = "model not built"
     # a class of accepted inputs that turns into rejected ones must not shrink the sample silently
